@@ -1338,7 +1338,16 @@ class EvolveAppTask(BaseEvolutionTask):
                                                     simulate_applied=True,
                                                     database=database_name)
             upgrade_method = app_upgrade_info.get('upgrade_method')
-            evolutions = get_evolution_sequence(app)
+
+            # Record the whole sequence as applied, minus anything that has
+            # already been recorded for this app label (say, by
+            # mark-evolution-applied). Nothing can have been recorded if
+            # Django Evolution's own tables are only now being created.
+            if evolver.database_state.has_model(Evolution):
+                evolutions = get_unapplied_evolutions(app=app,
+                                                      database=database_name)
+            else:
+                evolutions = get_evolution_sequence(app)
         else:
             orig_upgrade_method = app_sig.upgrade_method
 
